@@ -682,7 +682,10 @@ class _TftpReadRequest:
             options[OPTION_BLOCK_SIZE]
         ):
             requested_block_size = int(options[OPTION_BLOCK_SIZE])
-            if max_block_size >= requested_block_size >= MIN_BLOCK_SIZE:
+            if requested_block_size >= MIN_BLOCK_SIZE:
+                requested_block_size = min(
+                    requested_block_size, max_block_size
+                )
                 supported_options[OPTION_BLOCK_SIZE] = str(
                     requested_block_size
                 )
